@@ -625,24 +625,58 @@ func (e *Engine) registerIntrinsics() {
 		}
 		if _, ok := inp.T.Underlying().(*types.Map); ok {
 			if st, ok := pt.Elem().Underlying().(*types.Struct); ok {
-				m := inp.V.(*Map)
-				sv := (*dst).(Struct)
-				for i := 0; i < st.NumFields(); i++ {
-					n := tagName(st, i)
-					if n == "" {
-						continue
-					}
+				var fill func(m *Map, st *types.Struct, sv Struct)
+				// key lookup as mapstructure does it: the exact tag name, else a
+				// case-insensitive match among the map's keys
+				find := func(m *Map, n string) (Value, bool) {
 					if v, ok := m.lookup(c, mkStr(n)); ok {
+						return v, true
+					}
+					for i, k := range m.keys {
+						if kt, ok := k.(*Term); ok && kt.Const && strings.EqualFold(kt.S, n) {
+							return m.vals[i], true
+						} else if ok && !kt.Const {
+							panic(inconclusive("mapstructure.Decode: symbolic map key"))
+						}
+					}
+					return nil, false
+				}
+				fill = func(m *Map, st *types.Struct, sv Struct) {
+					for i := 0; i < st.NumFields(); i++ {
+						n := tagName(st, i)
+						if n == "" {
+							continue
+						}
+						v, ok := find(m, n)
+						if !ok {
+							continue
+						}
 						iv := v.(Iface)
 						if iv.T == nil {
 							continue
 						}
-						if !types.Identical(iv.T, st.Field(i).Type()) {
-							panic(inconclusive("mapstructure.Decode: field %s has %v, want %v (weak conversions not modelled)", n, iv.T, st.Field(i).Type()))
+						ft := st.Field(i).Type()
+						if types.Identical(iv.T, ft) {
+							sv[i] = copyVal(iv.V)
+							continue
 						}
-						sv[i] = copyVal(iv.V)
+						// a nested generic map decoded into a nested struct
+						if fst, ok := ft.Underlying().(*types.Struct); ok {
+							if _, isMap := iv.T.Underlying().(*types.Map); isMap {
+								if inner, ok := iv.V.(*Map); ok && inner != nil {
+									nested := copyVal(sv[i]).(Struct)
+									fill(inner, fst, nested)
+									sv[i] = nested
+									continue
+								}
+							}
+						}
+						panic(inconclusive("mapstructure.Decode: field %s has %v, want %v (weak conversions not modelled)", n, iv.T, ft))
 					}
 				}
+				m := inp.V.(*Map)
+				sv := (*dst).(Struct)
+				fill(m, st, sv)
 				return Iface{}
 			}
 		}
